@@ -3,6 +3,7 @@
 import json, os, glob
 VERIF = os.path.dirname(os.path.dirname(os.path.abspath(__file__)))
 rows = []
+harmless = []
 for d in sorted(glob.glob(os.path.join(VERIF, "seeded", "*"))):
     mp = os.path.join(d, "meta.json")
     if not os.path.exists(mp):
@@ -10,6 +11,11 @@ for d in sorted(glob.glob(os.path.join(VERIF, "seeded", "*"))):
     m = json.load(open(mp))
     sid = os.path.basename(d)
     det = m.get("checks_run", {})
+    if m.get("kind") == "harmless":
+        alarms = ", ".join(f"{c}: {'FAILING INPUT CLAIMED' if r.get('with_input') else 'no-failing-input-found'}" for c, r in sorted(det.items()) if r.get("alarm"))
+        harmless.append((sid, m.get("summary", "")[:200].replace("|", "/"), ", ".join(m.get("files_changed", []))[:120], "yes" if m.get("confirmed") else "no",
+                         str(len(det)), alarms or "none"))
+        continue
     caught = ", ".join(f"{c}: {'caught' if r['detected'] else 'MISSED'}" for c, r in sorted(det.items()))
     how = ""
     for c, r in det.items():
@@ -18,10 +24,14 @@ for d in sorted(glob.glob(os.path.join(VERIF, "seeded", "*"))):
                 how = l[len("detail:"):].strip().split(":")[0]
                 break
     rows.append((sid, m.get("property"), m.get("summary", "")[:150].replace("|", "/"), m.get("needs_to_manifest", "")[:170].replace("|", "/"),
-                 "yes" if m.get("confirmed") else "no", caught, how, m.get("note", "")))
+                 "yes" if m.get("confirmed") else "no", caught, how, (m.get("note") or m.get("notes") or "").replace("|", "/")))
 out = ["<!-- SEEDED-BEGIN -->", "", "| id | property | change | needs to manifest | confirmed (tests pass, demo fails only with it) | quick check | first signal | note |", "|---|---|---|---|---|---|---|---|"]
 for r in rows:
     out.append("| " + " | ".join(str(x) for x in r) + " |")
+out += ["", "**Behaviour-preserving rewrites** (written by independent agents told to change the source WITHOUT changing behaviour; evaluated by `tools/harmless_eval.py` against all 18 quick checks: an alarm that names a failing input would be a false alarm; `no-failing-input-found` is the specified report when a proof obligation or the correspondence breaks on a harmless rewrite):", "",
+        "| id | rewrite | files | tests pass | checks run | alarms |", "|---|---|---|---|---|---|"]
+for r in harmless:
+    out.append("| " + " | ".join(r) + " |")
 out += ["", f"{len(rows)} seeded defects kept; {sum(1 for r in rows if 'MISSED' not in r[5] and r[5])} caught by the quick check of their property as it stands now.", "<!-- SEEDED-END -->"]
 p = os.path.join(VERIF, "DESIGN.md")
 s = open(p).read()
